@@ -200,6 +200,24 @@ VARIANTS = [
     V('C03-M5', 'M', ('C03',), ST, 'Stream.head', r'Header\(self\.streamlets\[-1\], n\)', 'Header(self.streamlets[0], n)', ('C03-3',)),
     V('C03-M6', 'M', ('C03',), ST, 'Filter.__iter__', r'yield v', 'yield func(v)', ('C03-2',)),
     V('C03-E1', 'E', ('C03',), ST, 'Mapper.__iter__', r'\bv\b', 'elem', count=0),
+    V('C03-M7', 'M', ('C03',), ST, 'Batcher.__iter__', r'batch\.append\(x\)\n(\s+)if len\(batch\) == batch_size:\n(\s+)yield batch\n\s+batch = \[\]\n\s+if batch:\n\s+yield batch', r'if len(batch) == batch_size:\n\2yield batch\n\2batch = []\n\1batch.append(x)\n        yield batch', ('C03-6',), note='seeded C03-m2 shape: empty batch for empty input'),
+    V('C03-M8', 'M', ('C03',), ST, 'Batcher.__iter__', r'\n        if batch:\n            yield batch', '', ('C03-6',), note='no final flush'),
+    V('C03-M9', 'M', ('C03',), ST, 'Header.__iter__', r'if n >= nn:', 'if n > nn:', ('C03-6',)),
+    V('C03-M10', 'M', ('C03',), SA, 'AsyncHeader.__aiter__', r'if n >= self\.n:', 'if n > self.n:', ('C03-6',)),
+    V('C03-M11', 'M', ('C03',), ST, 'Tailer.__iter__', r'deque\(maxlen=self\.n\)', 'deque(maxlen=self.n - 1)', ('C03-6',)),
+    V('C03-M12', 'M', ('C03',), ST, 'Shuffler.__iter__', r'\n\s+yield y\n', '\n', ('C03-6',), note='displaced element lost'),
+    V('C03-M13', 'M', ('C03',), ST, 'Buffer.__iter__', r'(\n(\s+))yield z\n', r'\1if z:\1    yield z\n', ('C03-7',), note='falsy elements dropped'),
+    V('C03-M14', 'M', ('C03',), ST, 'Buffer.__iter__', r'z = tasks\.get\(\)\n', 'try:\n                    z = tasks.get(timeout=0.1)\n                except queue.Empty:\n                    if not self._worker.is_alive():\n                        break\n                    continue\n', ('C03-7',), note='seeded C03-m1 shape'),
+    V('C03-M15', 'M', ('C03',), ST, 'Buffer._run_worker', r'(\n(\s+))q\.put\(x\)  # if', r'\1if x is not None:\1    q.put(x)  # if', ('C03-7',)),
+    V('C03-M16', 'M', ('C03',), SA, 'AsyncBatcher.__aiter__', r'if batch:\n(\s+)yield batch', r'if len(batch) == batch_size:\n\1yield batch', ('C03-6',), note='partial last batch dropped'),
+    V('C03-M17', 'M', ('C03',), ST, 'Shuffler.__iter__', r'if buffer:\n\s+random\.shuffle\(buffer\)\n\s+yield from buffer', 'random.shuffle(buffer)', ('C03-6',), note='reservoir never flushed'),
+    V('C03-M18', 'M', ('C03',), ST, 'Header.__iter__', r'n = 0\n', 'n = 1\n', ('C03-6',)),
+    V('C03-M19', 'M', ('C03',), SA, 'SyncIter.__iter__', r'yield x\n(\s+)finally', r'yield x\n                    x = q.get()\n\1finally', ('C03-7',), note='every other element skipped'),
+    V('C03-M20', 'M', ('C03',), SA, 'AsyncUnbatcher.__aiter__', r'if isiterable\(x\):\n(\s+)for y in x:\n(\s+)yield y\n(\s+)else:\n\s+async for y in x:\n\s+yield y', r'if isiterable(x):\n\1for y in x:\n\2yield y', ('C03-6',), note='async batches dropped'),
+    V('C03-E2', 'E', ('C03',), ST, 'Batcher.__iter__', r'if len\(batch\) == batch_size:', 'if len(batch) >= batch_size:'),
+    V('C03-E3', 'E', ('C03',), ST, 'Batcher.__iter__', r'if batch:\n(\s+)yield batch', r'if len(batch) > 0:\n\1yield batch'),
+    V('C03-E4', 'E', ('C03',), ST, 'Tailer.__iter__', r'yield from data', 'for v in data:\n            yield v'),
+    V('C03-E5', 'E', ('C03',), ST, 'Shuffler.__iter__', r'if buffer:\n(\s+)random\.shuffle\(buffer\)\n\s+yield from buffer', r'random.shuffle(buffer)\n        yield from buffer', note='flushing an empty reservoir yields nothing'),
 ]
 
 # ---------------------------------------------------------------------- generic equivalent rewrites
@@ -275,4 +293,57 @@ VARIANTS += [
     V('G-mt-26', 'E', ALL, ST, 'Stream.map', r'self\.streamlets\.append\(Mapper\(self\.streamlets\[-1\], func, \*\*kwargs\)\)', 'mapper = Mapper(self.streamlets[-1], func, **kwargs)\n        self.streamlets.append(mapper)'),
     V('G-mt-27', 'E', ALL, SL, 'SequentialServlet.stop', r'for s in self\._servlets:\n(\s+)s\.stop\(\)', r'for member in self._servlets:\n\1member.stop()'),
     V('G-mt-28', 'E', ALL, PI, '_Pipe.send', r'self\._writer\.send\(obj\)', 'w = self._writer\n        w.send(obj)'),
+]
+
+
+# ---------------------------------------------------------------------- refactor-level rewrites that keep every property
+def _block(m, body_group, by):
+    """re-indent the captured block by `by` spaces"""
+    out = []
+    for ln in m.group(body_group).splitlines(keepends=True):
+        out.append((' ' * by + ln) if ln.strip() else ln)
+    return ''.join(out)
+
+
+def _with_to_acquire(m):
+    ind = m.group('ind')
+    lock = m.group('lock')
+    return f'{ind}{lock}.acquire()\n{ind}try:\n{m.group("body")}{ind}finally:\n{ind}    {lock}.release()\n'
+
+
+_WITH = r'(?P<ind>[ ]+)with (?P<lock>%s):\n(?P<body>(?:(?P=ind)    [^\n]*\n|[ ]*\n)+)'
+
+VARIANTS += [
+    V('G-rf-01', 'E', ALL, SV, 'Server._enqueue', _WITH % r'self\._pipeline_notfull', _with_to_acquire, flags=0, note='with -> acquire/try/finally'),
+    V('G-rf-02', 'E', ALL, SV, 'Server._gather_output', r'uid, y = z\n', 'uid = z[0]\n                y = z[1]\n'),
+    V('G-rf-03', 'E', ALL, SV, 'Server._gather_output', r'if not fut\.cancelled\(\):', 'abandoned = fut.cancelled()\n                if not abandoned:'),
+    V('G-rf-04', 'E', ALL, SV, 'Server._enqueue', r'while len\(pipeline\) >= self\._capacity:', 'while not (len(pipeline) < self._capacity):'),
+    V('G-rf-05', 'E', ALL, SV, 'Server._enqueue', r'if t <= 0 or not self\._pipeline_notfull\.wait\(t\):\n(\s+)(raise ServerBacklogFull\(len\(pipeline\), perf_counter\(\) - t0\))', r'if t <= 0:\n\1\2\n                if not self._pipeline_notfull.wait(t):\n\1\2'),
+    V('G-rf-06', 'E', ALL, WK, 'Worker._start_single.get_input', r'q_in\.put\(z\)  # broadcast to one fellow worker\n(\s+)q_out\.put\(z\)\n\s+break', r'q_in.put(None)\n\1q_out.put(None)\n\1return'),
+    V('G-rf-07', 'E', ALL, WK, 'Worker._start_single', r'uid = q_uid\.get\(\)\n\s+q_out\.put\(\(uid, y\)\)', 'q_out.put((q_uid.get(), y))'),
+    V('G-rf-08', 'E', ALL, WK, 'Worker._start_batch', r'for z in zip\(uids, yy\):\n(\s+)q_out\.put\(z\)', r'for u, y in zip(uids, yy):\n\1q_out.put((u, y))'),
+    V('G-rf-09', 'E', ALL, WK, 'Worker._build_input_batches', r'if isinstance\(x, Exception\):\n(\s+)q_out\.put\(\(uid, RemoteException\(x\)\)\)\n(\s+)elif isinstance\(x, RemoteException\):', r'if isinstance(x, Exception):\n\1x = RemoteException(x)\n\2if isinstance(x, RemoteException):'),
+    V('G-rf-10', 'E', ALL, WK, 'Worker._get_input_batch', r'while n < batchsize:', 'while len(out) < batchsize:'),
+    V('G-rf-11', 'E', ALL, ST, 'fifo_stream.feed', r'(?P<ind>[ ]+)for x in instream:\n(?P<body>(?:(?P=ind)    [^\n]*\n|[ ]*\n)+)', lambda m: f'{m.group("ind")}it = iter(instream)\n{m.group("ind")}while True:\n{m.group("ind")}    try:\n{m.group("ind")}        x = next(it)\n{m.group("ind")}    except StopIteration:\n{m.group("ind")}        break\n{m.group("body")}', flags=0, note='for -> while/next'),
+    V('G-rf-12', 'E', ALL, ST, 'fifo_stream', r'x, fut = z\n', 'x = z[0]\n            fut = z[1]\n'),
+    V('G-rf-13', 'E', ALL, ST, 'fifo_stream', r'if isinstance\(z, \(Exception, StopRequested\)\):\n(\s+)raise z', r'if isinstance(z, BaseException):\n\1raise z'),
+    V('G-rf-14', 'E', ALL, ST, 'Buffer._run_worker', r'if stopped\.is_set\(\):\n(\s+)break\n\s+if extern_stopped is not None and extern_stopped\.is_set\(\):\n\s+break', r'if stopped.is_set() or (extern_stopped is not None and extern_stopped.is_set()):\n\1break'),
+    V('G-rf-15', 'E', ALL, ST, 'Buffer.__iter__', r'raise tasks\.get\(\)', 'exc = tasks.get()\n                    raise exc'),
+    V('G-rf-16', 'E', ALL, ST, 'Batcher.__iter__', r'if len\(batch\) == batch_size:', 'if len(batch) >= batch_size:'),
+    V('G-rf-17', 'E', ALL, ST, 'Header.__iter__', r'if n >= nn:\n(\s+)break\n(\s+)yield v\n\s+n \+= 1', r'if n < nn:\n\1yield v\n\1n += 1\n\1continue\n\2break'),
+    V('G-rf-18', 'E', ALL, ST, 'Unbatcher.__iter__', r'yield from x', 'for y in x:\n                yield y'),
+    V('G-rf-19', 'E', ALL, ST, 'Mapper.__iter__', r'yield func\(v\)', 'y = func(v)\n            yield y'),
+    V('G-rf-20', 'E', ALL, ST, 'EagerBatcher.__iter__', r'if end is None:\n\s+if z is None:\n\s+break\n\s+else:\n\s+if z == end:\n(\s+)break', r'if (z is None) if end is None else (z == end):\n\1break', count=1),
+    V('G-rf-21', 'E', ALL, TE, 'Fork.__next__', r'locked = self\.instream_lock\.acquire\(timeout=0\.1\)\n(\s+)if locked:', r'if self.instream_lock.acquire(timeout=0.1):'),
+    V('G-rf-22', 'E', ALL, TE, 'Fork.__next__', r'(\n(\s+)box\.n \+= 1\n)\s+if box\.n == self\.n_forks:', r'\1\2last = box.n == self.n_forks\n\2if last:'),
+    V('G-rf-23', 'E', ALL, QU, 'IterableQueue.__next__', r'if finished:\n(?:\s+#[^\n]*\n)*\s+self\.put\(None\)\n(?:\s+#[^\n]*\n)*\s+raise StopIteration\n\s+if exhausted:', r'if finished or exhausted:'),
+    V('G-rf-24', 'E', ALL, QU, 'IterableQueue.__iter__', r'while True:\n\s+try:\n\s+yield self\.__next__\(\)\n\s+except StopIteration:\n\s+break', 'while True:\n            try:\n                z = self.__next__()\n            except StopIteration:\n                return\n            yield z'),
+    V('G-rf-25', 'E', ALL, QU, 'IterableQueue.renew', r'for _ in range\(self\._num_suppliers\):\n(\s+)z = self\._used_lids\.get\(\)\n\s+self\._spare_lids\.put\(z\)', r'for _ in range(self._num_suppliers):\n\1self._spare_lids.put(self._used_lids.get())'),
+    V('G-rf-26', 'E', ALL, CX, 'SpawnProcess._collect_result', r'if error is not None:\n(\s+)self\._future_\.set_exception\(error\)\n(\s+)else:\n\s+self\._future_\.set_result\(result\)', r'if error is None:\n\1self._future_.set_result(result)\n\2else:\n\1self._future_.set_exception(error)'),
+    V('G-rf-27', 'E', ALL, SP, 'Server.incref', r'self\.id_to_refcount\[ident\] \+= 1', 'self.id_to_refcount[ident] = self.id_to_refcount[ident] + 1'),
+    V('G-rf-28', 'E', ALL, SP, 'Server.create', r'if ident not in self\.id_to_refcount:\n(\s+)self\.id_to_refcount\[ident\] = 0', r'self.id_to_refcount.setdefault(ident, 0)'),
+    V('G-rf-29', 'E', ALL, SP, 'BaseProxy._decref', r'if server:\n(\s+)server\.decref\(None, token\.id\)\n(\s+)else:\n((?:\2    [^\n]*\n)+)', r'if not server:\n\3\2else:\n\1server.decref(None, token.id)\n', flags=0, note='arms swapped'),
+    V('G-rf-30', 'E', ALL, SV, 'AsyncServer._gather_output', r'uid, y = z\n', 'uid = z[0]\n            y = z[1]\n'),
+    V('G-rf-31', 'E', ALL, WK, 'Worker._start_single.get_input', r'uid, x = z\n', 'uid = z[0]\n                x = z[1]\n'),
+    V('G-rf-32', 'E', ALL, ST, 'Buffer._finalize', r'while self\._worker\.is_alive\(\):', 'worker = self._worker\n        while worker.is_alive():'),
 ]
